@@ -1710,6 +1710,29 @@ class IRGenerator:
             for route in routes:
                 namespace.add_route(route)
 
+        # Drop the aliases that (directly, through other aliases or nested in
+        # lists, maps and nullables) refer to a data type that was filtered out;
+        # nothing that is retained uses them, and code generated for them would
+        # reference missing definitions.
+        retained = set()
+        for namespace in self.api.namespaces.values():
+            retained.update(namespace.data_types)
+
+        def refers_to_removed_type(data_type):
+            if is_user_defined_type(data_type):
+                return data_type not in retained
+            if is_map_type(data_type):
+                return (refers_to_removed_type(data_type.key_data_type) or
+                        refers_to_removed_type(data_type.value_data_type))
+            if is_alias(data_type) or is_list_type(data_type) or is_nullable_type(data_type):
+                return refers_to_removed_type(data_type.data_type)
+            return False
+
+        for namespace in self.api.namespaces.values():
+            namespace.aliases = [alias for alias in namespace.aliases
+                                 if not refers_to_removed_type(alias)]
+            namespace.alias_by_name = {alias.name: alias for alias in namespace.aliases}
+
     def _find_dependencies(self, data_types):
         output_types = defaultdict(list)
         output_routes = defaultdict(set)
